@@ -322,6 +322,34 @@ fn swh_copy_case<H: Payload>(n: usize, delta: i64, phase: u8) -> Result<(), Stri
     })
 }
 
+/// copy_slice with a zero-sized Copy element type: the length check must not be by byte size
+fn zst_copy_case(n: usize, delta: i64, phase: u8) -> Result<(), String> {
+    in_window(|| {
+        let arena = arena_in_phase(phase)?;
+        let b = before(&arena);
+        let src_len = (n as i64 + delta).max(0) as usize;
+        if delta != 0 && src_len == n {
+            return Ok(());
+        }
+        let r = catch_unwind(AssertUnwindSafe(|| {
+            arena.mutate(|mc, _| {
+                let src = vec![(); src_len];
+                let g = talloc::subject(|| GcSliceBuilder::<()>::new(n)).copy_slice(mc, &src);
+                g.len()
+            })
+        }));
+        let got = r.as_ref().ok().copied();
+        drop(r);
+        match (got, delta) {
+            (Some(l), 0) if l == n => {}
+            (None, d) if d != 0 => unchanged(&arena, &b, "copy_slice of zero-sized elements with a source of the wrong length")?,
+            (Some(l), d) => return Err(format!("copy_slice::<()> with source length {src_len} into a builder of length {n} (delta {d}) produced a slice of length {l} instead of being rejected")),
+            (None, _) => return Err("copy_slice::<()> with the correct length panicked".into()),
+        }
+        epilogue(arena, &[])
+    })
+}
+
 /// copy_slice / copy_str with a source of length n + delta; str builder dropped fresh (delta = 99)
 fn copy_case(n: usize, delta: i64, phase: u8, is_str: bool) -> Result<(), String> {
     in_window(|| {
@@ -423,6 +451,11 @@ pub fn cases(thorough: bool) -> Vec<Case> {
         sl!(A1<3>);
         sl!(P4<4>);
         sl!(P1<0>);
+        for n in [0usize, 1, 3, 5] {
+            for delta in [-2i64, -1, 0, 1, 2] {
+                v.push((format!("copy/zst/n{n}/delta{delta}/phase{phase}"), Box::new(move || zst_copy_case(n, delta, phase))));
+            }
+        }
         for n in [0usize, 1, 3, 8] {
             for delta in [-1i64, 0, 1, 99] {
                 for is_str in [false, true] {
